@@ -297,6 +297,11 @@ def parseCmd? : List String → Option Cmd
     some (.presetCardinal (← parseField? n) (← parseField? e) (← parseField? s) (← parseField? w))
   | ["preset", "bidir", p, n] => do some (.presetBidir (← parseField? p) (← parseField? n))
   | ["preset", "stick", side] => do some (.presetStick (← parseBool? side))
+  -- `Cardinal::wasd_keys()` / `Cardinal::dpad_buttons()`: north east south west (pool keys W=16 D=3 S=17 A=0; pad buttons 4..7)
+  | ["preset", "wasd"] =>
+    some (.presetCardinal (.plain (.key 16 {})) (.plain (.key 3 {})) (.plain (.key 17 {})) (.plain (.key 0 {})))
+  | ["preset", "dpad"] =>
+    some (.presetCardinal (.plain (.padBtn 4)) (.plain (.padBtn 7)) (.plain (.padBtn 5)) (.plain (.padBtn 6)))
   | "react" :: f :: k :: op => do
     let o ← parseOp? op
     match o with
